@@ -22,6 +22,7 @@ use std::{
 
 pub mod abi;
 mod clock;
+mod interpose;
 mod ops;
 pub mod pollsim;
 mod ring;
@@ -126,6 +127,11 @@ pub struct Completion {
     /// digest of the bytes moved (reads: what was written to user memory; writes: what was taken)
     pub digest: u64,
     pub at_ns: u64,
+    /// the `addr` field of the SQE (the data buffer of plain reads and writes): never logged, only for
+    /// matching a completion with the buffer a user operation submitted
+    pub addr: usize,
+    /// position in the order of all completions of the run
+    pub evseq: u64,
 }
 
 pub type EnvAction = Box<dyn FnOnce()>;
@@ -165,6 +171,8 @@ pub struct Kernel {
     /// time a virtual pool worker spent parked inside the current callback: its own view of the
     /// clock (its idle time-out elapses), not the run's
     pub cb_offset_ns: u64,
+    /// counts completions posted (any ring)
+    pub evseq: u64,
 }
 
 impl Kernel {
@@ -182,6 +190,7 @@ impl Kernel {
             watches: Vec::new(),
             in_callback: false,
             cb_offset_ns: 0,
+            evseq: 0,
         }
     }
 }
@@ -246,8 +255,47 @@ pub fn begin(cfg: KConfig) {
         k.active = true;
     });
     STATS.with(|s| *s.borrow_mut() = Stats::default());
+    simcore::quarantine::watch_clear();
     clock::set_active(true);
 }
+
+/// Number of completions the simulated kernel has posted so far in this run.
+pub fn completions_posted() -> u64 {
+    with_kernel(|k| k.evseq)
+}
+
+/// Raise the violation for memory freed (or moved) while the kernel could still use it, if it happened.
+pub(crate) fn check_memory_ledger() {
+    if let Some(h) = simcore::quarantine::take_hit() {
+        let what = KERNEL.with(|k| {
+            k.try_borrow().ok().map(|k| {
+                if h.tag >= PBUF_TAG {
+                    format!("the provided-buffer ring of group {}", h.tag - PBUF_TAG)
+                } else {
+                    k.rings
+                        .values()
+                        .flat_map(|r| r.ops.iter())
+                        .find(|o| o.seq == h.tag)
+                        .map(|o| format!("operation #{} {} on fd {}", o.seq, op_name(o.opcode), o.fd))
+                        .unwrap_or_else(|| format!("operation #{}", h.tag))
+                }
+            })
+        });
+        simcore::try_with(|d| {
+            d.raise(simcore::Violation::new(
+                "freed-in-flight",
+                format!(
+                    "a heap block of {} bytes was freed (or moved) while {} was still pending in the kernel and may read or write {} bytes of it",
+                    h.freed_len,
+                    what.unwrap_or_default(),
+                    h.watch_len
+                ),
+            ))
+        });
+    }
+}
+
+pub const PBUF_TAG: u64 = 1 << 48;
 
 /// End the run; returns the statistics and whatever was left pending (for quiescence checks).
 pub struct EndState {
@@ -260,6 +308,8 @@ pub struct EndState {
 }
 
 pub fn end() -> EndState {
+    check_memory_ledger();
+    simcore::quarantine::watch_clear();
     clock::set_active(false);
     with_kernel(|k| {
         k.active = false;
